@@ -28,6 +28,9 @@ SPEC = {
         gen("vh_c51", "up_bloom_filter", 8000, 150000, max_seconds_quick=600, rule="upstream fuzz target bloom_filter (insert => contains asserts), supplementary"),
         gen("vh_c51", "up_rolling_bloom_filter", 8000, 150000, max_seconds_quick=600, rule="upstream fuzz target rolling_bloom_filter, supplementary"),
         gen("vh_c51", "up_merkleblock", 8000, 150000, max_seconds_quick=600, rule="upstream fuzz target merkleblock, supplementary"),
+        # coverage-guided libFuzzer campaign on the same target (thorough tier only; fz tree = g++ trace-pc + covshim)
+        fuzz('vh_c51', 'c51_pmt', 300, max_len=300),
+        fuzz('vh_c51', 'c51_gcs', 300, max_len=400),
     ],
 }
 
